@@ -487,3 +487,245 @@ pub fn drive_kex(t: &mut Tracer, tier: &str, seed: u64, plan: Option<String>) {
         }
     }
 }
+
+// ---------------------------------------------------------------- C14 RNG (SM2 part; SM9 part in sm9.rs)
+fn draws_json(log: &[verif::RngEvent]) -> Value {
+    Value::Array(log.iter().map(|e| json!({"c": bytes(&e.candidate), "a": if e.accepted { 1 } else { 0 }})).collect())
+}
+/// run `f` under the hook with an optional injection script; returns (outcome, hook log)
+fn with_log<T: Send + 'static>(script: Vec<[u8; 32]>, f: impl FnOnce() -> gm_sm2::error::Sm2Result<T> + Send + 'static) -> (Outcome<T>, Vec<verif::RngEvent>) {
+    let out = guard_timed(20, move || {
+        verif::rng_script(script);
+        let _ = verif::rng_take_log();
+        let r = f();
+        let log = verif::rng_take_log();
+        verif::rng_script(vec![]);
+        Ok::<_, String>((r, log))
+    });
+    match out {
+        Outcome::Ok((Ok(v), log)) => (Outcome::Ok(v), log),
+        Outcome::Ok((Err(e), log)) => (Outcome::Err(format!("{:?}", e)), log),
+        Outcome::Err(e) => (Outcome::Err(e), vec![]), Outcome::Panic(e) => (Outcome::Panic(e), vec![]), Outcome::Timeout => (Outcome::Timeout, vec![]),
+    }
+}
+pub fn injection_script(order_hex: &str, p_hex: &str, rng: &mut Rng, which: usize) -> Vec<[u8; 32]> {
+    let n = hexb(order_hex);
+    let p = hexb(p_hex);
+    let all: Vec<Vec<u8>> = vec![vec![0u8; 32], n.clone(), be_add_small(&n, 1), be_add_small(&n, 2), be_add_small(&p, -2), be_add_small(&p, -1), p.clone(), vec![0xffu8; 32],
+        be_add_small(&n, (rng.below(1 << 20) + 3) as i64)];
+    let mut s: Vec<[u8; 32]> = vec![b32(&all[which % all.len()]), b32(&all[(which / 3 + 1) % all.len()])];
+    let mut good = rng.bytes(32); good[0] &= 0x7f;      // finally a good value so that the operation ends
+    s.push(b32(&good));
+    s
+}
+
+pub fn rng_ops_sm2(t: &mut Tracer, sess: &str, proc_id: u32, count: usize, inject: bool, rng: &mut Rng, real: &mut u64) {
+    let key = key_from(&{ let mut d = rng.bytes(32); d[0] &= 0x7f; d }).unwrap();
+    for i in 0..count {
+        let script = if inject { injection_script(N_HEX, P_HEX, rng, i) } else { vec![] };
+        let scripted = if inject { 1 } else { 0 };
+        let kind = ["keygen", "sign", "encrypt", "kx1", "kx2"][i % 5];
+        let mut f = json!({"prop": "C14", "lib": "sm2", "kind": kind, "proc": proc_id, "scripted": scripted, "chk": "none"});
+        let check_pt = i % 25 < 5;     // [k]G comparisons are expensive in the specification: sampled
+        match kind {
+            "keygen" => {
+                let (o, log) = with_log(script, || gm_sm2::key::gen_keypair());
+                f["draws"] = draws_json(&log); f["outcome"] = json!(o.name());
+                if let (Some((pk, _)), true) = (o.ok(), check_pt) { f["chk"] = json!("pt"); f["pt"] = bytes(&pk.to_bytes(false)); }
+            }
+            "sign" => {
+                let sk = key.sk.clone();
+                let m = rng.bytes(20);
+                let (o, log) = with_log(script, move || sk.sign(None, &m).map(|s| (s, m)));
+                f["draws"] = draws_json(&log); f["outcome"] = json!(o.name());
+                if let Some((sig, m)) = o.ok() {
+                    // digest-level recovery needs e; the spec recovers k = s(1+d) + r d from (d, r, s) alone
+                    f["chk"] = json!("sig"); f["d"] = bytes(&key.d); f["sig"] = bytes(sig); f["msg"] = bytes(m);
+                }
+            }
+            "encrypt" => {
+                let pk = key.sk.public_key.clone();
+                let m = rng.bytes(5);
+                let (o, log) = with_log(script, move || pk.encrypt(&m, false, Sm2Model::C1C3C2));
+                f["draws"] = draws_json(&log); f["outcome"] = json!(o.name());
+                if let (Some(ct), true) = (o.ok(), check_pt) { f["chk"] = json!("pt"); f["pt"] = bytes(&ct[..65]); }
+            }
+            _ => {
+                let k2 = key_from(&{ let mut d = rng.bytes(32); d[0] &= 0x7f; d }).unwrap();
+                let mut ex = Exchange::new(16, None, &key.sk.public_key, &key.sk, None, &k2.sk.public_key).unwrap();
+                let step2 = kind == "kx2";
+                let g5 = g_mul(&[5, 0, 0, 0]);
+                let (o, log) = with_log(script, move || if step2 { ex.exchange_2(&g5).map(|(p, _)| p) } else { ex.exchange_1() });
+                f["draws"] = draws_json(&log); f["outcome"] = json!(o.name());
+                if let (Some(p), true) = (o.ok(), check_pt) { f["chk"] = json!("pt"); f["pt"] = bytes(&p.to_byte_be(false)); }
+            }
+        }
+        if !inject && f["outcome"] == "ok" { *real += 1; }
+        t.emit(sess, "rng.op", f);
+    }
+}
+
+// ---------------------------------------------------------------- C19 encodings
+use pkcs8::{DecodePrivateKey, DecodePublicKey, EncodePrivateKey, EncodePublicKey, LineEnding};
+
+fn codec_encode_event(t: &mut Tracer, sess: &str, d: &[u8]) -> Option<Value> {
+    let dd = d.to_vec();
+    let out = guard_timed(20, move || -> Result<Value, String> {
+        let sk = Sm2PrivateKey::new(&dd).map_err(|e| format!("{:?}", e))?;
+        let pk = sk.public_key.clone();
+        let spki = pk.to_public_key_der().map_err(|e| format!("{:?}", e))?;
+        let spki_pem = pk.to_public_key_pem(LineEnding::LF).map_err(|e| format!("{:?}", e))?;
+        let p8 = sk.to_pkcs8_der().map_err(|e| format!("{:?}", e))?;
+        let p8_pem = sk.to_pkcs8_pem(LineEnding::LF).map_err(|e| format!("{:?}", e))?;
+        Ok(json!({"pkc": bytes(&pk.to_bytes(true)), "pku": bytes(&pk.to_bytes(false)), "hexc": bytes(pk.to_hex_string(true).as_bytes()), "hexu": bytes(pk.to_hex_string(false).as_bytes()),
+            "skb": bytes(&sk.to_bytes_be()), "skhex": bytes(sk.to_hex_string().as_bytes()), "spki_der": bytes(spki.as_bytes()), "spki_pem": bytes(spki_pem.as_bytes()),
+            "p8_der": bytes(p8.as_bytes()), "p8_pem": bytes(p8_pem.as_bytes())}))
+    });
+    let mut f = json!({"prop": "C19", "d": bytes(d), "outcome": out.name(), "detail": out.detail()});
+    let res = out.ok().cloned();
+    if let Some(v) = &res { for (k, x) in v.as_object().unwrap() { f[k] = x.clone(); } }
+    else { for k in ["pkc", "pku", "hexc", "hexu", "skb", "skhex", "spki_der", "spki_pem", "p8_der", "p8_pem"] { f[k] = json!([]); } }
+    t.emit(sess, "codec.encode", f);
+    res
+}
+
+fn codec_decode_event(t: &mut Tracer, sess: &str, kind: &'static str, input: &[u8], fault: &str, canon: bool) {
+    let inp = input.to_vec();
+    let out: Outcome<Vec<u8>> = guard_timed(20, move || -> Result<Vec<u8>, String> {
+        let e = |x: &dyn std::fmt::Debug| format!("{:?}", x);
+        match kind {
+            "pk_bytes" => Sm2PublicKey::new(&inp).map(|p| p.to_bytes(false)).map_err(|x| e(&x)),
+            "pk_hex" => Sm2PublicKey::from_hex_string(std::str::from_utf8(&inp).map_err(|x| e(&x))?).map(|p| p.to_bytes(false)).map_err(|x| e(&x)),
+            "sk_bytes" => Sm2PrivateKey::new(&inp).map(|s| s.to_bytes_be()).map_err(|x| e(&x)),
+            "sk_hex" => Sm2PrivateKey::from_hex_string(std::str::from_utf8(&inp).map_err(|x| e(&x))?).map(|s| s.to_bytes_be()).map_err(|x| e(&x)),
+            "spki_der" => Sm2PublicKey::from_public_key_der(&inp).map(|p| p.to_bytes(false)).map_err(|x| e(&x)),
+            "spki_pem" => Sm2PublicKey::from_public_key_pem(std::str::from_utf8(&inp).map_err(|x| e(&x))?).map(|p| p.to_bytes(false)).map_err(|x| e(&x)),
+            "pkcs8_der" => Sm2PrivateKey::from_pkcs8_der(&inp).map(|s| s.to_bytes_be()).map_err(|x| e(&x)),
+            _ => Sm2PrivateKey::from_pkcs8_pem(std::str::from_utf8(&inp).map_err(|x| e(&x))?).map(|s| s.to_bytes_be()).map_err(|x| e(&x)),
+        }
+    });
+    let o = out.ok().cloned().unwrap_or_default();
+    t.emit(sess, "codec.decode", json!({"prop": "C19", "kind": kind, "input": bytes(input), "fault": fault, "canon": if canon { 1 } else { 0 },
+        "out": bytes(&o), "outcome": out.name(), "detail": out.detail()}));
+}
+
+fn asn1_enc_event(t: &mut Tracer, sess: &str, key: &Key, msg: &[u8], script: Vec<[u8; 32]>, shape: &str, compressed: bool, order: &'static str) -> Option<Vec<u8>> {
+    let pk = key.sk.public_key.clone();
+    let m = msg.to_vec();
+    let (out, ks) = hooked(move || pk.encrypt_asn1(&m, compressed, model_of(order)), script);
+    let der = out.ok().cloned().unwrap_or_default();
+    let mut f = json!({"prop": "C19", "pk": bytes(&key.pk65), "ks": ks.iter().map(|k| bytes(k)).collect::<Vec<_>>(), "der": bytes(&der), "shape": shape,
+        "outcome": out.name(), "detail": out.detail()});
+    msg_fields(&mut f, None, msg);
+    t.emit(sess, "codec.asn1_enc", f);
+    if der.is_empty() { None } else { Some(der) }
+}
+fn asn1_dec_event(t: &mut Tracer, sess: &str, d: &[u8], der: &[u8], fault: &str) {
+    let out = match guard(|| Sm2PrivateKey::new(d)) {
+        Outcome::Ok(sk) => { let c = der.to_vec(); guard_timed(20, move || sk.decrypt_asn1(&c, false, Sm2Model::C1C3C2)) }
+        Outcome::Err(e) => Outcome::Err(e), Outcome::Panic(p) => Outcome::Panic(p), Outcome::Timeout => Outcome::Timeout,
+    };
+    let o = out.ok().cloned().unwrap_or_default();
+    t.emit(sess, "codec.asn1_dec", json!({"prop": "C19", "d": bytes(d), "der": bytes(der), "fault": fault, "out": bytes(&o), "outcome": out.name(), "detail": out.detail()}));
+}
+
+/// search an ephemeral scalar whose C1 = [k]G has `zeros` leading zero bytes in x (or y), or a first byte >= 0x80
+fn search_k(rng: &mut Rng, want_y: bool, zeros: usize, limit: usize) -> Option<[u8; 32]> {
+    for _ in 0..limit {
+        let mut k = rng.bytes(32); k[0] &= 0x7f;
+        let p = g_mul(&be_u256(&k)).to_byte_be(false);
+        let c = if want_y { &p[33..65] } else { &p[1..33] };
+        if c[..zeros].iter().all(|b| *b == 0) { return Some(b32(&k)); }
+    }
+    None
+}
+
+pub fn drive_codec(t: &mut Tracer, tier: &str, seed: u64) {
+    let thorough = tier == "thorough";
+    let mut rng = Rng(seed ^ 0x5219);
+    let mut n = 0u64;
+    let mut sess = || { n += 1; format!("sm2codec/{}", n) };
+    // keys: edge, random, and keys searched for leading-zero public coordinates / both parities
+    let mut keys = edge_keys(&mut rng, thorough);
+    for want_y in [false, true] { if let Some(k) = search_k(&mut rng, want_y, 1, 5000) { keys.push(k.to_vec()); } }
+    let mut lz = rng.bytes(32); lz[0] = 0; lz[1] = 0; keys.push(lz);
+    for (ki, d) in keys.iter().enumerate() {
+        if !thorough && ki >= 6 && ki + 3 < keys.len() { continue; }
+        let enc = match codec_encode_event(t, &sess(), d) { Some(v) => v, None => continue };
+        // decode every form back
+        for (kind, field) in [("pk_bytes", "pkc"), ("pk_bytes", "pku"), ("pk_hex", "hexc"), ("pk_hex", "hexu"), ("sk_bytes", "skb"), ("sk_hex", "skhex"),
+                              ("spki_der", "spki_der"), ("spki_pem", "spki_pem"), ("pkcs8_der", "p8_der"), ("pkcs8_pem", "p8_pem")] {
+            codec_decode_event(t, &sess(), kind, &arr(&enc[field]), "roundtrip", true);
+        }
+        // malformed inputs: wrong lengths, off-curve, coordinates >= p, unknown prefix
+        let pku = arr(&enc["pku"]);
+        let pkc = arr(&enc["pkc"]);
+        for cut in [0usize, 1, 32, 33, 34, 64, 66] {
+            let mut v = pku.clone(); v.resize(cut.max(1).min(66), 0); if cut == 0 { v.clear(); }
+            codec_decode_event(t, &sess(), "pk_bytes", &v, "wrong-length", false);
+        }
+        let mut off = pku.clone(); off[64] ^= 1;
+        codec_decode_event(t, &sess(), "pk_bytes", &off, "off-curve", false);
+        codec_decode_event(t, &sess(), "pk_hex", hex::encode(&off).as_bytes(), "off-curve", false);
+        let mut pre = pku.clone(); pre[0] = 5;
+        codec_decode_event(t, &sess(), "pk_bytes", &pre, "bad-prefix", false);
+        let mut cflip = pkc.clone(); cflip[0] ^= 1;          // other parity: still a valid encoding of -P
+        codec_decode_event(t, &sess(), "pk_bytes", &cflip, "other-parity", false);
+        let mut ff = vec![4u8]; ff.extend_from_slice(&[0xffu8; 64]);
+        codec_decode_event(t, &sess(), "pk_bytes", &ff, "coords>=p", false);
+        codec_decode_event(t, &sess(), "pk_hex", b"zz", "bad-hex", false);
+        codec_decode_event(t, &sess(), "pk_hex", b"04abc", "bad-hex", false);
+        let mut spki = arr(&enc["spki_der"]);
+        let l = spki.len(); spki[l - 1] ^= 1;
+        codec_decode_event(t, &sess(), "spki_der", &spki, "off-curve", false);
+        for cut in [0usize, 10, 26, 90] { codec_decode_event(t, &sess(), "spki_der", &arr(&enc["spki_der"])[..cut], "truncated", false); }
+        for cut in [0usize, 10, 36, 100, 137] { codec_decode_event(t, &sess(), "pkcs8_der", &arr(&enc["p8_der"])[..cut], "truncated", false); }
+        for len in [0usize, 1, 31, 33, 64] { codec_decode_event(t, &sess(), "sk_bytes", &rng.bytes(len), "wrong-length", false); }
+    }
+    // OpenSSL-made documents (committed corpus)
+    let base = concat!(env!("CARGO_MANIFEST_DIR"), "/../corpus/");
+    let mut corpus_d: Vec<u8> = vec![];
+    if let Ok(text) = std::fs::read_to_string(format!("{}sm2_pem_bytes.ndjson", base)) {
+        let v: Value = serde_json::from_str(text.lines().next().unwrap()).unwrap();
+        corpus_d = arr(&v["d"]);
+        codec_decode_event(t, &sess(), "spki_der", &arr(&v["spki_der"]), "openssl", true);
+        codec_decode_event(t, &sess(), "spki_pem", &arr(&v["spki_pem"]), "openssl", true);
+        codec_decode_event(t, &sess(), "pkcs8_der", &arr(&v["pkcs8_der"]), "openssl", true);
+        codec_decode_event(t, &sess(), "pkcs8_pem", &arr(&v["pkcs8_pem"]), "openssl", true);
+    }
+    if let Ok(text) = std::fs::read_to_string(format!("{}sm2_enc_openssl_der.ndjson", base)) {
+        for line in text.lines() {
+            let v: Value = serde_json::from_str(line).unwrap();
+            asn1_dec_event(t, &sess(), &corpus_d, &arr(&v["der"]), "openssl");
+        }
+    }
+    // ASN.1 ciphertexts: ephemeral scalars searched so that C1.x / C1.y start with 00, 00 00, or a byte >= 0x80 (DER INTEGER shaping)
+    let key = key_from(&keys[3]).unwrap();
+    let mut shapes: Vec<(String, Option<[u8; 32]>)> = vec![("random".into(), None)];
+    for z in 1..=(if thorough { 2 } else { 1 }) {
+        shapes.push((format!("x-lead0x{}", z), search_k(&mut rng, false, z, 400000)));
+        shapes.push((format!("y-lead0x{}", z), search_k(&mut rng, true, z, 400000)));
+    }
+    for (shape, k) in shapes {
+        let reps = if k.is_none() { if thorough { 40 } else { 6 } } else { 1 };
+        for r in 0..reps {
+            let mlen = 1 + rng.below(if r % 2 == 0 { 40 } else { 300 }) as usize;
+            let m = rng.bytes(mlen);
+            let script = k.map(|x| vec![x]).unwrap_or_default();
+            if shape != "random" && k.is_none() { continue; }
+            if let Some(der) = asn1_enc_event(t, &sess(), &key, &m, script, &shape, false, "c1c3c2") {
+                asn1_dec_event(t, &sess(), &key.d, &der, "own");
+                if r == 0 {
+                    for cut in [0usize, 1, 2, 10, der.len() / 2, der.len() - 1] { asn1_dec_event(t, &sess(), &key.d, &der[..cut], "truncated"); }
+                    let mut c = der.clone(); let l = c.len(); c[l - 1] ^= 1;
+                    asn1_dec_event(t, &sess(), &key.d, &c, "flipped");
+                    asn1_dec_event(t, &sess(), &key.d, &rng.bytes(40), "garbage");
+                }
+            }
+        }
+    }
+    // the DER form does not depend on the raw-format flags
+    let m = rng.bytes(20);
+    asn1_enc_event(t, &sess(), &key, &m, vec![], "alt-flags", true, "c1c3c2");
+    asn1_enc_event(t, &sess(), &key, &m, vec![], "alt-flags", false, "c1c2c3");
+}
